@@ -57,7 +57,9 @@ CONSTANTS N,                    \* commits in the universe
           BitmapClosedPack,     \* a bitmap is built/used only for a pack closed under reachability
           BitmapExcludeExact,   \* exclusion by bitmap needs a bitmap for every excluded commit (else fall back)
           ProvidersAgree,       \* graph-traversal provider implements the documented meaning (= what bitmaps give)
-          DeleteDropsPacked     \* deleting a ref also drops its packed-refs entry
+          DeleteDropsPacked,    \* deleting a ref also drops its packed-refs entry
+          CgHonoursShallow,     \* a shallow boundary is tested before the commit-graph is asked for parents
+          Focus                 \* "all" | "refs" (only commits as loose objects, ref updates and pack-refs)
 
 VARIABLES n,        \* commits created so far: 1..n
           par,      \* [1..N -> SUBSET 1..N]   parents
@@ -127,6 +129,21 @@ T_RC(ta, H, X) == IF H \cup X \subseteq PresentS THEN AncOf(ta, H) \ AncOf(ta, X
 T_RO(ta, H, X) == AncOf(ta, H \cap PresentS) \ AncOf(ta, X \cap PresentS)
 T_Miss(ta, Hv, W) == IF W \subseteq PresentS THEN AncOf(ta, W) \ AncOf(ta, Hv \cap PresentS) ELSE MISSING
 T_Ref(r)      == tref[r]
+\* walk from S along p, not expanding the commits in Stop (they are reached, not passed)
+RECURSIVE TWalk(_, _, _, _)
+TWalk(p, S, Stop, k) == IF k = 0 THEN S ELSE TWalk(p, S \cup UNION {p[c] : c \in S \ Stop}, Stop, k - 1)
+\* history cut at a shallow boundary Sh: the boundary commits belong to it, their parents do not
+\*   _collect_ancestors(heads = W, common = X, shallow = Sh)
+\*   (a commit is only looked up when it is expanded: a boundary commit that is not there raises nothing)
+TParM == Force([i \in 0..N |-> IF i = 0 THEN {} ELSE T_Par(i)])
+T_Cut(W, X, Sh) == Norm(TWalk(TParM, W, X \cup Sh, N) \ X)
+\*   MissingObjectFinder(haves = Hv, wants = W, shallow = Sh)
+T_MissS(Hv, W, Sh) ==
+    IF ~(W \subseteq PresentS) THEN MISSING
+    ELSE LET hv == Hv \cap PresentS
+             anc == IF hv = {} THEN {} ELSE TWalk(TParFn, hv, Sh, N)
+         IN  TWalk(TParFn, W, anc \cup Sh, N) \ anc
+Singles == {{i} : i \in Commits}
 
 -----------------------------------------------------------------------------
 (* lookup paths with the set A of accelerator kinds in use *)
@@ -179,6 +196,20 @@ W_Misss(v, Hv, W) ==
     ELSE LET hv == Hv \cap PresentS IN
          { Norm(Walk(v, W, anc, N) \ anc) : anc \in (IF hv = {} THEN {{}} ELSE W_RCs(v, hv, {})) }
 
+\* --- shallow boundaries (fetch --depth): the walks of _collect_ancestors with shallow = Sh.  With a shallow
+\* set the provider always traverses (bitmaps are not consulted), so only the commit-graph can interfere.
+Expands(v, c, Common, Sh) == c \notin Common /\ ~(c \in Sh /\ (CgHonoursShallow \/ ~CgHit(v.A, c)))
+RECURSIVE WalkS(_, _, _, _, _)
+WalkS(v, S, Common, Sh, k) ==
+    IF k = 0 THEN S
+    ELSE WalkS(v, S \cup UNION {v.par[c] : c \in {x \in S : Expands(v, x, Common, Sh)}}, Common, Sh, k - 1)
+W_Cut(v, W, X, Sh) == Norm(WalkS(v, W, X, Sh, N) \ X)
+W_MissS(v, Hv, W, Sh) ==
+    IF ~(W \subseteq PresentS) THEN MISSING
+    ELSE LET hv == Hv \cap PresentS
+             anc == IF hv = {} THEN {} ELSE WalkS(v, hv, {}, Sh, N)
+         IN  Norm(WalkS(v, W, anc, Sh, N) \ anc)
+
 -----------------------------------------------------------------------------
 (* the property *)
 \* (the answers are functions of the view and of primary data, so equal views need no comparison)
@@ -188,6 +219,9 @@ Same(v, u) ==
           /\ \A i \in Commits : W_Par(v, i) = W_Par(u, i)
           /\ \A i, j \in Commits : i < j => W_Mb(v, i, j) = W_Mb(u, i, j)
           /\ \A H \in Heads : W_Anc(v, H) = W_Anc(u, H)
+    /\ (v.par # u.par \/ ("cg" \in v.A /\ cg.on)) =>
+          \A W \in Singles, X \in Excl, Sh \in Singles : /\ W_Cut(v, W, X, Sh) = W_Cut(u, W, X, Sh)
+                                                         /\ W_MissS(v, X, W, Sh) = W_MissS(u, X, W, Sh)
     /\ (v.par # u.par \/ v.bm # u.bm) =>
           \A H \in Heads, X \in Excl : /\ W_RCs(v, H, X) = W_RCs(u, H, X)
                                        /\ W_ROs(v, H, X) = W_ROs(u, H, X)
@@ -205,6 +239,8 @@ Exact ==
           /\ \A X \in Excl : /\ W_RCs(u, H, X) = {T_RC(ta, H, X)}
                              /\ W_ROs(u, H, X) = {T_RO(ta, H, X)}
                              /\ W_Misss(u, X, H) = {T_Miss(ta, X, H)}
+    /\ \A W \in Singles, X \in Excl, Sh \in Singles : /\ W_Cut(u, W, X, Sh) = T_Cut(W, X, Sh)
+                                                   /\ W_MissS(u, X, W, Sh) = T_MissS(X, W, Sh)
 \* the storage of refs (loose file shadowing a packed entry) always yields THE value
 RefsTransparent == \A r \in Refs : RefVal(r) = tref[r]
 \* an entry that disagrees with the data it indexes contributes nothing
@@ -228,11 +264,12 @@ Init == /\ n = 0 /\ par = [i \in 1..N |-> {}] /\ loose = {} /\ packs = {}
 acc == <<cg, midx, bmp, idxv>>
 \* behaviours are explored up to MaxDepth steps (0 = no bound: trace validation)
 Lvl == MaxDepth = 0 \/ TLCGet("level") <= MaxDepth
+Full == Focus = "all"
 
 \* ---- history growth.  how = "loose" (add_object) | "pack" (add_objects: arrives as a pack of its own)
 Commit(P, r, how) ==
     /\ Lvl /\ act' = <<"Commit", P, r, how>> /\ n < N /\ Cardinality(P) <= 2 /\ P \subseteq PresentS
-    /\ how = "pack" => Cardinality(packs) < MaxPacks
+    /\ how = "pack" => Full /\ Cardinality(packs) < MaxPacks
     /\ n' = n + 1 /\ par' = [par EXCEPT ![n + 1] = P]
     /\ IF how = "loose" THEN loose' = loose \cup {n + 1} /\ UNCHANGED packs
                         ELSE packs' = packs \cup {<<{n + 1}, "d">>} /\ UNCHANGED loose
@@ -254,19 +291,19 @@ PackRefs(w) ==
     /\ pref' = [r \in Refs |-> RefVal(r)] /\ lref' = [r \in Refs |-> 0]
     /\ UNCHANGED <<n, par, loose, packs, tref, acc>>
 PackLoose ==
-    /\ Lvl /\ act' = <<"PackLoose">> /\ loose # {} /\ Cardinality(packs) < MaxPacks
+    /\ Lvl /\ Full /\ act' = <<"PackLoose">> /\ loose # {} /\ Cardinality(packs) < MaxPacks
     /\ packs' = packs \cup {<<loose, "d">>} /\ loose' = {}
     /\ UNCHANGED <<n, par, tref, lref, pref, acc>>
 \* dulwich repack(): everything into one pack; accelerator files are left alone (bitmaps of removed packs
 \* stay on disk as orphans and re-attach if a pack of that name comes back)
 RepackD ==
-    /\ Lvl /\ act' = <<"RepackD">> /\ PresentS # {} /\ (packs # {<<PresentS, "d">>} \/ loose # {})
+    /\ Lvl /\ Full /\ act' = <<"RepackD">> /\ PresentS # {} /\ (packs # {<<PresentS, "d">>} \/ loose # {})
     /\ <<PresentS, "g">> \notin packs          \* (dulwich would keep the git-named twin: not modelled)
     /\ packs' = {<<PresentS, "d">>} /\ loose' = {}
     /\ UNCHANGED <<n, par, tref, lref, pref, acc>>
 \* dulwich garbage_collect(grace_period=None): unreachable objects go, the rest into one pack
 Gc ==
-    /\ Lvl /\ act' = <<"Gc">> /\ PresentS # {} /\ (loose # {} \/ packs # {<<Reach, "d">>})
+    /\ Lvl /\ Full /\ act' = <<"Gc">> /\ PresentS # {} /\ (loose # {} \/ packs # {<<Reach, "d">>})
     /\ <<Reach, "g">> \notin packs             \* (dulwich would keep the git-named twin: not modelled)
     /\ packs' = (IF Reach = {} THEN {} ELSE {<<Reach, "d">>}) /\ loose' = {}
     /\ UNCHANGED <<n, par, tref, lref, pref, acc>>
@@ -274,7 +311,7 @@ Gc ==
 \* loose copies of packed objects pruned; the midx is deleted when it names a pack that existed; bitmaps of the
 \* old packs are deleted; -b writes a bitmap for the new pack
 RepackG(b) ==
-    /\ Lvl /\ act' = <<"RepackG", b>> /\ Reach # {}
+    /\ Lvl /\ Full /\ act' = <<"RepackG", b>> /\ Reach # {}
     \* (not modelled: a foreign midx that already names the pack git is about to write -- git 2.39 then leaves the
     \* loose copies behind; and git refusing to work because a midx has offsets for other bytes under a pack's name)
     /\ ~(midx.on /\ <<Reach, "g">> \in midx.packs \ packs)
@@ -292,7 +329,7 @@ RepackG(b) ==
 \* mode: "all" dulwich write_commit_graph() (every commit in the store), "reach" from the ref tips
 \* (git commit-graph write --reachable / dulwich refs=tips), "tips" dulwich reachable=False
 BuildCg(w, mode) ==
-    /\ Lvl /\ act' = <<"BuildCg", w, mode>> /\ Tips # {} /\ (w = "git" => mode = "reach")
+    /\ Lvl /\ Full /\ act' = <<"BuildCg", w, mode>> /\ Tips # {} /\ (w = "git" => mode = "reach")
     /\ mode = "tips" => ~CgWriterCloses        \* a writer that closes the set makes "tips" the same as "reach"
     /\ LET C == CASE mode = "all" -> PresentS [] mode = "reach" -> Reach [] mode = "tips" -> Tips IN
        cg' = [on |-> TRUE, commits |-> IF CgWriterCloses THEN Anc(C) ELSE C,
@@ -302,41 +339,41 @@ BuildCg(w, mode) ==
 \* dulwich write_midx() indexes the packs present; git multi-pack-index write (2.39) also keeps every pack
 \* named by the midx it finds, whether or not that pack still exists
 BuildMidx(w) ==
-    /\ Lvl /\ act' = <<"BuildMidx", w>> /\ packs # {}
+    /\ Lvl /\ Full /\ act' = <<"BuildMidx", w>> /\ packs # {}
     /\ midx' = [on |-> TRUE, packs |-> IF w = "git" /\ midx.on THEN packs \cup midx.packs ELSE packs]
     /\ midx' # midx
     /\ UNCHANGED <<prim, cg, bmp, idxv>>
 \* dulwich generate_pack_bitmaps(refs): every pack without an accepted bitmap gets one for the tips it holds
 BuildBmp ==
-    /\ Lvl /\ act' = <<"BuildBmp">> /\ Tips # {} /\ packs # {}
+    /\ Lvl /\ Full /\ act' = <<"BuildBmp">> /\ Tips # {} /\ packs # {}
     /\ LET ok(p) == \E b \in bmp : b.at = p /\ (BitmapChecksum => b.for = p)
            new == {[at |-> p, for |-> p, sel |-> Tips \cap Objs(p)] : p \in {q \in packs : ~ok(q)}} IN
        /\ new # {}
        /\ bmp' = {b \in bmp : ok(b.at) \/ b.at \notin packs} \cup new
     /\ UNCHANGED <<prim, cg, midx, idxv>>
 Remove(k) ==
-    /\ Lvl /\ act' = <<"Remove", k>>
+    /\ Lvl /\ Full /\ act' = <<"Remove", k>>
     /\ \/ k = "cg" /\ cg.on /\ cg' = NoCg /\ UNCHANGED <<midx, bmp>>
        \/ k = "midx" /\ midx.on /\ midx' = NoMidx /\ UNCHANGED <<cg, bmp>>
        \/ k = "bmp" /\ bmp # {} /\ bmp' = {} /\ UNCHANGED <<cg, midx>>
     /\ UNCHANGED <<prim, idxv>>
 \* files built elsewhere: the other repository is a fully packed clone holding every commit ever created
 CopyMidx(wo) ==
-    /\ Lvl /\ act' = <<"CopyMidx", wo>> /\ WithCopies /\ n > 0 /\ midx # [on |-> TRUE, packs |-> {<<Commits, wo>>}]
+    /\ Lvl /\ Full /\ act' = <<"CopyMidx", wo>> /\ WithCopies /\ n > 0 /\ midx # [on |-> TRUE, packs |-> {<<Commits, wo>>}]
     /\ midx' = [on |-> TRUE, packs |-> {<<Commits, wo>>}]
     /\ UNCHANGED <<prim, cg, bmp, idxv>>
 CopyCg ==
-    /\ Lvl /\ act' = <<"CopyCg">> /\ WithCopies /\ n > 0 /\ cg # [on |-> TRUE, commits |-> Commits, closed |-> TRUE]
+    /\ Lvl /\ Full /\ act' = <<"CopyCg">> /\ WithCopies /\ n > 0 /\ cg # [on |-> TRUE, commits |-> Commits, closed |-> TRUE]
     /\ cg' = [on |-> TRUE, commits |-> Commits, closed |-> TRUE]
     /\ UNCHANGED <<prim, midx, bmp, idxv>>
 \* the bitmap of pack p renamed to sit next to pack q
 CopyBmp(p, q) ==
-    /\ Lvl /\ act' = <<"CopyBmp", p, q>> /\ WithCopies /\ p # q /\ q \in packs
+    /\ Lvl /\ Full /\ act' = <<"CopyBmp", p, q>> /\ WithCopies /\ p # q /\ q \in packs
     /\ \E b \in bmp : /\ b.at = p /\ b.for = p
                       /\ bmp' = {x \in bmp : x.at # q} \cup {[at |-> q, for |-> p, sel |-> b.sel]}
     /\ UNCHANGED <<prim, cg, midx, idxv>>
 Reindex(w, v) ==
-    /\ Lvl /\ act' = <<"Reindex", w, v>> /\ WithIdx /\ packs # {} /\ idxv # v /\ idxv' = v
+    /\ Lvl /\ Full /\ act' = <<"Reindex", w, v>> /\ WithIdx /\ packs # {} /\ idxv # v /\ idxv' = v
     /\ UNCHANGED <<prim, cg, midx, bmp>>
 
 Writers == {"dulwich", "git"}
